@@ -382,6 +382,9 @@ func (g *JSGen) expr(depth int) (string, int) {
 			save := g.consts
 			g.consts = append(g.consts, p)
 			inner := g.Expr(depth-1, lvAssign)
+			if strings.HasPrefix(inner, "{") {
+				inner = "(" + inner + ")" // an arrow body starting with { would be a block
+			}
 			g.consts = save
 			return "((" + p + ") => " + inner + ")(" + body + ")", lvCall
 		}
